@@ -14,7 +14,8 @@
 (*  C15: OfferedExact (OfferedCR = Requested), AllowedExact, AllowedSorted  *)
 (*       (sorted, no duplicates), CommunityExact, LocalPrefExact,           *)
 (*       RouterPrefixes, NodeSelector, PasswordXor, Params.*, Neighbor,     *)
-(*       Stray, Deterministic, Agreement (OfferedCR = Offered of the text)  *)
+(*       Stray, Deterministic, Agreement (OfferedCR = Offered of the text), *)
+(*       Handover (same resource at a second look)                          *)
 (*                                                                          *)
 (* Every failing conjunct is printed by name (never stop at the first);     *)
 (* names starting with "INFO." are informational, never a verdict.          *)
@@ -26,9 +27,15 @@ N == Len(Trace)
 
 VARIABLE i
 
-SameSet(j) == j > 1 /\ Trace[j - 1].id = Trace[j].id /\ Trace[j - 1].mode = Trace[j].mode
+(* the previous line belongs to the same id and was judged (the driver puts the lines that are not judged first) *)
+SameSet(j) == j > 1 /\ Trace[j - 1].id = Trace[j].id /\ Trace[j - 1].mode = Trace[j].mode /\ Trace[j - 1].refusedok
+
+(* o.refusedok = FALSE: a Set the model expects to be refused was accepted by the code; what the state should be *)
+(* after that is not defined by the model: nothing is judged (reported as DRIFT by the driver)                      *)
+NotJudged == [fails |-> {"INFO.RefusalNotObserved"}, info |-> [errs |-> <<>>]]
 
 Verdict14(o, j) ==
+  IF ~o.refusedok THEN NotJudged ELSE
   LET L == Live14(o.sessions)
       f == Fails14(o.sessions, L, o.prog)
            \cup If(SameSet(j) => Trace[j - 1].sha = o.sha, "C14.Deterministic")
@@ -39,12 +46,16 @@ Verdict14(o, j) ==
                       undefined |-> UndefinedRefs(o.prog)]]
 
 Verdict15(o, j) ==
+  IF ~o.refusedok THEN NotJudged ELSE
   LET L == Live15(o.sessions, o.created)
       f == Fails15(o.sessions, L, o.cr, o.node)
            \cup Agreement(o.sessions, L \cap Live14(o.sessions), o.prog, o.cr)
            \* (the driver puts the orders that produced no resource at all, possible when every session of the set was
            \*  refused, in front of the others)
            \cup If((SameSet(j) /\ Trace[j - 1].cr.present /\ o.cr.present) => Trace[j - 1].sha = o.sha, "C15.Deterministic")
+           \* the resource is the same at the second look (callback path: the very value that was handed over, looked at
+           \* again once the operation returned; reconciler path: the object after a second Reconcile)
+           \cup If(o.sha0 = o.sha, "C15.Handover")
   IN [fails |-> f,
       info  |-> IF f = {} THEN [errs |-> <<>>]
                 ELSE [errs |-> o.errs, created |-> o.created,
